@@ -360,10 +360,15 @@ func (e *Env) engineTags(st *rm.State, rq gen.Request) string {
 // lost membership sits under an exclusion's subtrahend.
 func (e *Env) grantTags(st *rm.State, rq gen.Request) string {
 	inv := ""
+	if TwoUsersetsOfOneType(e.Sc.Model, rm.ObjType(rq.Obj), rq.Rel) {
+		// F39: the recursive userset fast path follows every userset of the relation's own type as if
+		// it named the relation itself
+		inv = " two_userset_restrictions_of_one_type"
+	}
 	for _, t := range st.Tuples {
 		if !e.Sc.Model.ValidForRead(t) {
 			// only the weighted-graph path is known to honour such tuples (F25); the tag is inert for v1
-			inv = " state_has_tuple_invalid_for_model"
+			inv += " state_has_tuple_invalid_for_model"
 			break
 		}
 	}
